@@ -75,4 +75,10 @@ theorem undecryptable_skipped (C : Ciphers) (s : V3Session) (m : V3Msg) (ct : By
   rw [hd]
   simp only [hf]
 
+/-- **C10.wide_integer_refused**: an INTEGER of more than eight content octets — e.g. an id written as nine octets
+`01 xx…`, which is 2^64 + id — is refused by the decoder whatever its octets: it can never alias a smaller id -/
+theorem wide_integer_refused (i : Bytes) (h : Header) (hl : 8 < h.length) : decodeInt i h = .err .InvalidData := by
+  unfold decodeInt
+  rw [if_neg (by omega), if_pos hl]
+
 end GufoSnmp.C10
